@@ -40,9 +40,10 @@ type recoverHandlerInterceptor struct {
 
 func (i *recoverHandlerInterceptor) WrapUnary(next UnaryFunc) UnaryFunc {
 	return func(ctx context.Context, req AnyRequest) (_ AnyResponse, retErr error) { // nolint:nonamedreturns
-		if req.Spec().IsClient {
-			return next(ctx, req)
-		}
+		// No look at req.Spec().IsClient here: WithRecover is a HandlerOption, so
+		// this only ever wraps handlers - and a Request that an earlier
+		// interceptor has handed to a client (to mirror traffic, say) claims to
+		// be a client's from then on.
 		panicked := true
 		defer func() {
 			if panicked {
